@@ -119,6 +119,9 @@ func semanticErrors() []declCase {
 	add("object ref to enum", "object Foo {\n  field a object:E\n}\n\nenum E {\n  option A\n}\n", true)
 	add("enum ref to object", "object Foo {\n  field a enum:Bar\n}\n\nobject Bar {\n}\n", true)
 	add("enum rule unknown value", "object Foo {\n  field a enum:E {\n    rules.in = [\"NOPE\"]\n  }\n}\n\nenum E {\n  option A\n}\n", true)
+	add("oneof with an optional scalar member", "oneof Ch {\n  option a ? string\n  option b string\n}\n", false)
+	add("oneof with an array member", "oneof Ch {\n  option a array:string\n}\n", false)
+	add("oneof with a map member", "oneof Ch {\n  option a map:string\n}\n", false)
 	add("map without item type", "object Foo {\n  field a map\n}\n", true)
 	add("array without item type", "object Foo {\n  field a array\n}\n", true)
 	add("field without type", "object Foo {\n  field a\n}\n", true)
